@@ -33,6 +33,17 @@ def parseArgs (t : Array String) : Option (List Arg) := Id.run do
       let mut v : Array Int := #[]
       for j in [0:len] do v := v.push (t[i+2+j]!).toInt!
       out := out.push (.z v.toList); i := i + 2 + len
+    else if k == "b" then
+      out := out.push (.b ((t[i+1]!) == "1")); i := i + 2
+    else if k == "zm" then
+      let r := (t[i+1]!).toNat!
+      let c := (t[i+2]!).toNat!
+      let mut rows : Array (List Int) := #[]
+      for a in [0:r] do
+        let mut v : Array Int := #[]
+        for j in [0:c] do v := v.push (t[i+3+a*c+j]!).toInt!
+        rows := rows.push v.toList
+      out := out.push (.zm rows.toList); i := i + 3 + r * c
     else if k == "im" then
       let r := (t[i+1]!).toNat!
       let c := (t[i+2]!).toNat!
@@ -60,7 +71,7 @@ def parseArgs (t : Array String) : Option (List Arg) := Id.run do
   return some out.toList
 
 def wellFormed (t : Array String) : Bool :=
-  t.size ≥ 2 && (t.toList.drop 1).all (fun s => s == "s" || s == "v" || s == "m" || s == "n" || s == "i" || s == "z" || s == "im" || s.toInt?.isSome || s.toNat?.isSome)
+  t.size ≥ 2 && (t.toList.drop 1).all (fun s => s == "s" || s == "v" || s == "m" || s == "n" || s == "i" || s == "z" || s == "im" || s == "zm" || s == "b" || s.toInt?.isSome || s.toNat?.isSome)
 
 def step (line : String) : String :=
   let t := (line.trimAscii.toString.splitOn " ").toArray
